@@ -735,4 +735,153 @@ theorem validateWith_complete (b : Backend) (md : Md) (hv : ValidMd b md) (hwt :
     have h4 : libsStage (branchOf .cmsMiniaod) md = .ok [] := by unfold libsStage; rw [hlk]
     exact ⟨_, validateWith_of h1 h2 h3 h4 h5 h6⟩
 
+/-! ## `declare`: tables -/
+
+inductive Rel₂ {α β : Type} (R : α → β → Prop) : List α → List β → Prop where
+  | nil : Rel₂ R [] []
+  | cons {a b as bs} : R a b → Rel₂ R as bs → Rel₂ R (a :: as) (b :: bs)
+
+theorem validate_of_mdType (b : Backend) (md : Md) (h : md.mdType = b.mdType) :
+    validate md = validateWith (branchOf b) md := by
+  unfold validate; rw [h, findBranch_mdType]
+
+theorem validate_ok_branch {md : Md} {c : CollSpec} (h : validate md = .ok c) :
+    ∃ b : Backend, md.mdType = b.mdType ∧ validateWith (branchOf b) md = .ok c := by
+  unfold validate at h
+  cases hf : findBranch md.mdType with
+  | none => simp [hf] at h
+  | some br =>
+    obtain ⟨b, h1, h2⟩ := findBranch_some _ _ hf
+    rw [hf] at h; subst h2
+    exact ⟨b, h1, h⟩
+
+theorem mdType_injective (b b' : Backend) (h : b.mdType = b'.mdType) : b = b' := by
+  cases b <;> cases b' <;> first | rfl | (exact absurd h (by decide))
+
+theorem checkBackends_ok_iff (b : Backend) (cs : List CollSpec) :
+    checkBackends b cs = .ok () ↔ ∀ c ∈ cs, c.backend = b.execName := by
+  induction cs with
+  | nil => simp [checkBackends]
+  | cons c cs ih =>
+    by_cases hc : c.backend = b.execName
+    · simp [checkBackends, hc, ih]
+    · simp [checkBackends, hc]
+
+/-- every accepted list of declarations: one specification per declaration, in order -/
+theorem validateAll_ok {mds : List Md} {cs : List CollSpec} (h : validateAll mds = .ok cs) :
+    Rel₂ (fun md c => validate md = .ok c) mds cs := by
+  induction mds generalizing cs with
+  | nil => simp [validateAll] at h; subst h; exact .nil
+  | cons md mds ih =>
+    unfold validateAll at h
+    cases h1 : validate md with
+    | error e => simp [h1] at h
+    | ok c =>
+      cases h2 : validateAll mds with
+      | error e => simp [h1, h2] at h
+      | ok cs' =>
+        simp [h1, h2] at h; subst h
+        exact .cons h1 (ih h2)
+
+theorem validateAll_of {mds : List Md} (h : ∀ md ∈ mds, ∃ c, validate md = .ok c) : ∃ cs, validateAll mds = .ok cs := by
+  induction mds with
+  | nil => exact ⟨[], rfl⟩
+  | cons md mds ih =>
+    obtain ⟨c, hc⟩ := h md (by simp)
+    obtain ⟨cs, hcs⟩ := ih (fun m hm => h m (by simp [hm]))
+    exact ⟨c :: cs, by simp [validateAll, hc, hcs]⟩
+
+theorem declare_ok {b : Backend} {mds : List Md} {table : List CollSpec} (h : declare b mds = .ok table) :
+    ∃ cs, table = builtins b ++ cs ∧ Rel₂ (fun md c => validate md = .ok c) mds cs ∧
+      ∀ c ∈ cs, c.backend = b.execName := by
+  unfold declare at h
+  cases h1 : validateAll mds with
+  | error e => simp [h1] at h
+  | ok cs =>
+    cases h2 : checkBackends b cs with
+    | error e => simp [h1, h2] at h
+    | ok u =>
+      simp [h1, h2] at h
+      exact ⟨cs, h.symm, validateAll_ok h1, (checkBackends_ok_iff b cs).1 h2⟩
+
+/-- what `declare` accepts: every declaration is well formed and for this backend; the table is
+the property's table -/
+theorem declare_sound {b : Backend} {mds : List Md} {table : List CollSpec} (h : declare b mds = .ok table) :
+    (∀ md ∈ mds, ValidMd b md) ∧ (∀ c ∈ table, ClassOk b c) ∧
+    ((∀ md ∈ mds, KindDefault b md) → table.map declOf = builtinDecls b ++ mds.map (intended b)) := by
+  obtain ⟨cs, rfl, hf, hb⟩ := declare_ok h
+  have key : ∀ (mds : List Md) (cs : List CollSpec), Rel₂ (fun md c => validate md = .ok c) mds cs →
+      (∀ c ∈ cs, c.backend = b.execName) →
+      (∀ md ∈ mds, ValidMd b md) ∧ (∀ c ∈ cs, ClassOk b c) ∧
+      ((∀ md ∈ mds, KindDefault b md) → cs.map declOf = mds.map (intended b)) := by
+    intro mds cs hf
+    induction hf with
+    | nil => intro _; simp
+    | @cons md c mds cs hv _ ih =>
+      intro hb
+      obtain ⟨b', hty, hw⟩ := validate_ok_branch hv
+      obtain ⟨v1, v2, v3, v4⟩ := validateWith_sound b' md c hty hw
+      have hbb : b' = b := execName_injective _ _ (v2.symm.trans (hb c (by simp)))
+      subst hbb
+      obtain ⟨i1, i2, i3⟩ := ih (fun c hc => hb c (by simp [hc]))
+      refine ⟨?_, ?_, ?_⟩
+      · intro m hm; rcases List.mem_cons.1 hm with rfl | hm; exact v1; exact i1 m hm
+      · intro x hx; rcases List.mem_cons.1 hx with rfl | hx; exact v3; exact i2 x hx
+      · intro hk
+        simp only [List.map_cons]
+        rw [v4 (hk md (by simp)), i3 (fun m hm => hk m (by simp [hm]))]
+  obtain ⟨k1, k2, k3⟩ := key mds cs hf hb
+  refine ⟨k1, ?_, ?_⟩
+  · intro c hc
+    rcases List.mem_append.1 hc with hc | hc
+    · exact builtins_classOk b c hc
+    · exact k2 c hc
+  · intro hk
+    rw [List.map_append, builtins_declOf, k3 hk]
+
+theorem declare_complete {b : Backend} {mds : List Md} (hv : ∀ md ∈ mds, ValidMd b md) (hwt : ∀ md ∈ mds, md.WellTyped)
+    (hcms : ∀ md ∈ mds, CmsIsCollection b md) : ∃ table, declare b mds = .ok table := by
+  have h1 : ∀ md ∈ mds, ∃ c, validate md = .ok c := by
+    intro md hm
+    rw [validate_of_mdType b md (hv md hm).1]
+    exact validateWith_complete b md (hv md hm) (hwt md hm) (hcms md hm)
+  obtain ⟨cs, hcs⟩ := validateAll_of h1
+  have hb : ∀ c ∈ cs, c.backend = b.execName := by
+    have hf := validateAll_ok hcs
+    clear hcs h1
+    induction hf with
+    | nil => simp
+    | @cons md c mds cs hvv _ ih =>
+      intro x hx
+      rcases List.mem_cons.1 hx with rfl | hx
+      · rw [validate_of_mdType b md (hv md (by simp)).1] at hvv
+        exact (validateWith_sound b md x (hv md (by simp)).1 hvv).2.1
+      · exact ih (fun m hm => hv m (by simp [hm])) (fun m hm => hwt m (by simp [hm])) (fun m hm => hcms m (by simp [hm])) x hx
+  exact ⟨builtins b ++ cs, by simp [declare, hcs, (checkBackends_ok_iff b cs).2 hb]⟩
+
+/-! ## lookup -/
+
+theorem lookupDecl_map (l : List CollSpec) (n : Text) : lookupDecl (l.map declOf) n = (lookup l n).map declOf := by
+  induction l with
+  | nil => rfl
+  | cons c l ih =>
+    simp only [List.map_cons, lookupDecl, lookup, ih]
+    cases lookup l n with
+    | some c' => rfl
+    | none =>
+      simp only [Option.map_none, declOf]
+      by_cases hc : c.name = n
+      · subst hc; simp [declOf]
+      · simp [hc]
+
+theorem lookup_append (l₁ l₂ : List CollSpec) (n : Text) :
+    lookup (l₁ ++ l₂) n = match lookup l₂ n with
+      | some c => some c
+      | none => lookup l₁ n := by
+  induction l₁ with
+  | nil => simp [lookup]; cases lookup l₂ n <;> rfl
+  | cons c l ih =>
+    simp only [List.cons_append, lookup, ih]
+    cases lookup l₂ n <;> rfl
+
 end FaxVerif.C06
